@@ -7,6 +7,10 @@ BASELINE_OFF = ("cd /repo && cargo nextest run --workspace --no-fail-fast --test
 
 # id -> (level, technique, design_ref, text, note)
 CHECKS = {
+ "C08": ("fault_enumeration", "exhaustive single-fault injection at every position of reference-encoded uploads under three framings, judged by a reference decoder at the backend's body stream, on the real S3Service::call",
+         "DESIGN §4 C08",
+         "Every single fault (bit flip, truncation at every offset, delete/duplicate/swap/splice/re-sign/resize of each chunk, trailing garbage, wrong or absent declared length) at every position of uploads of 0..66560 bytes in 0..3 chunks, each delivered as one frame, cut exactly at the fault, and in 1-byte frames. The oracle is a reference decoder run on the very same faulty bytes; what is judged is the byte string and terminal state of the stream the backend reads.",
+         "reference encoder validated on the AWS documentation example; in the 64 KiB chunk, data-byte flips and truncations are taken on a stride (stated in the evidence), all header bytes are covered"),
  "C07": ("exploration", "full-product enumeration of request classes x operations x service configurations with a reference monitor over the ordered event log, on the real S3Service::call",
          "DESIGN §4 C07",
          "The complete product of 14 request classes x all 96 operations (plus the POST form) x provider x 6 access-hook modes x 4 route modes x host parser is executed; a reference monitor checks on every event log that identities shown are the verified signer's, that check -> typed hook -> backend are ordered and agree on the operation, that nothing follows a denial and the denial's code is returned, and that without a provider any request presenting a signature is refused. No bound is needed: the space is finite and fully enumerated.",
